@@ -52,67 +52,117 @@ def contained(iv, outer):
 
 
 def tables_rule(chk, prog):
-    # ---- parser escape table
-    h = prog.hir.get(P + "parse_string")
-    chk.floor("parse_string HIR", 1 if h else 0, 1)
+    # ---- parser escape table and unescaped set, decided with R-BYTECLASS over `char` (hv/byteset.py, width 0x110000): for every
+    # character taken from the input in parse_string (helpers inlined), which values reach each `string.push(..)` and what is pushed
+    from .. import byteset
+    pb = prog.bodies.get(P + "parse_string")
+    chk.floor("parse_string body", 1 if pb else 0, 1)
     esc = {}
-    unesc = None
-    if h:
-        for m in core.hir_find(h["body"], "Match"):
-            if m.get("scrut_ty") == "char":
-                for keys, guard, val, line, arm in core.match_table(m):
-                    for k in keys:
-                        if k[0] == "lit" and isinstance(k[1], int) and val[0] == "method" and val[1].endswith("String::push") and val[3] and val[3][0][0] == "lit":
-                            esc[chr(k[1])] = val[3][0][1]
-            if m.get("scrut_ty") == "u32":
-                for keys, guard, val, line, arm in core.match_table(m):
-                    iv = intervals_of(keys)
-                    if iv and val[0] == "method" and val[1].endswith("String::push"):
-                        unesc = (unesc or []) + iv
+    unesc = 0
+    if pb:
+        cands = []
+        for blk, t in pb.calls_to(r"parser::Parser::<'a>::next$"):
+            if t.get("dest") is None:
+                continue
+            d = describe(prog, pb, t["dest"]["l"])
+            cands.append(("field", d, 0))
+            for bb, bt in pb.calls_to(r"ops::Try>::branch$"):
+                if bt["args"] and describe(prog, pb, bt["args"][0]) == d and bt.get("dest") is not None:
+                    cands.append(("field", describe(prog, pb, bt["dest"]["l"]), 0))
+        chk.floor("characters read in parse_string", len(cands), 1)
+        pushes = [(blk, t) for blk, t in pb.calls_to(r"string::String::push$")]
+        chk.floor("String::push sites in parse_string", len(pushes), 2)
+        n_verbatim = 0
+        for var in cands:
+            fl = byteset.ByteFlow(prog, pb, var, width=0x110000)
+            for blk, t in pushes:
+                arg = describe(prog, pb, t["args"][1])
+                m = fl.mask_at(blk)
+                if fl.is_alias_desc(arg):
+                    n_verbatim += 1
+                    unesc |= m
+                    continue
+                if m == 0 or bin(m).count("1") > 64:
+                    continue
+                for v in byteset.members(m):
+                    got = fl.eval(arg, v)
+                    if got is not None:
+                        key = chr(v)
+                        if key in esc and esc[key] != got:
+                            esc[key] = ("ambiguous", esc[key], got)
+                        else:
+                            esc[key] = got
         for ch, cp in RFC_ESC.items():
             chk.ob("R1.parser_escapes", P + "parse_string", f"\\{ch} -> U+{cp:04X}", esc.get(ch) == cp, f"the parser maps \\{ch} to {esc.get(ch)}")
         chk.ob("R1.parser_escapes", P + "parse_string", "no other single-character escapes", set(esc) <= set(RFC_ESC), f"extra escapes {sorted(set(esc) - set(RFC_ESC))}")
+        got_iv = byteset.intervals_of(unesc)
         chk.ob("R1.parser_unescaped", P + "parse_string", "characters accepted unescaped == %x20-21 / %x23-5B / %x5D-10FFFF",
-               unesc is not None and norm_intervals(unesc) == RFC_UNESCAPED, f"parser accepts {norm_intervals(unesc) if unesc else None} unescaped")
-    # ---- serialiser
+               n_verbatim > 0 and got_iv == RFC_UNESCAPED, f"parser accepts {[(hex(a), hex(b)) for a, b in got_iv]} unescaped")
+    # ---- serialiser: the same analysis on the character being written (the loop variable of string_to_string, or the `char`
+    # parameter of a closure / helper it is handed to)
     sfn = "humphrey_json::serialize::string_to_string"
-    hs = prog.hir.get(sfn)
-    chk.floor("string_to_string HIR", 1 if hs else 0, 1)
-    if hs:
-        ms = [m for m in core.hir_find(hs["body"], "Match") if m.get("scrut_ty") == "u32"]
-        chk.floor("serialiser code-point table", len(ms), 1)
-        if ms:
-            taken = set()
-            short = {}
-            selfmap = []
-            has_rest = False
-            for keys, guard, val, line, arm in core.match_table(ms[0]):
-                iv = intervals_of(keys)
-                if iv is None:
-                    has_rest = has_rest or keys == [("rest",)]
-                    continue
-                if val[0] == "method" and val[1].endswith("String::push_str") and val[3] and val[3][0][0] == "lit":
-                    for lo, hi in iv:
-                        for cp in range(lo, hi + 1):
-                            if cp not in taken:
-                                short[cp] = val[3][0][1]
-                                taken.add(cp)
-                elif val[0] == "method" and val[1].endswith("String::push"):
-                    selfmap += subtract(iv, taken)
-            for cp, s in sorted(short.items()):
-                ok = len(s) == 2 and s[0] == "\\" and RFC_ESC.get(s[1]) == cp and esc.get(s[1]) == cp
-                chk.ob("R1.serialiser_escapes", sfn, f"U+{cp:04X} -> {s!r} is an RFC escape of that code point and the parser inverts it", ok,
-                       f"U+{cp:04X} is written as {s!r}; the parser reads that back as {esc.get(s[1]) if len(s) == 2 else None}")
-            chk.ob("R1.serialiser_unescaped", sfn, "code points written verbatim are within the RFC unescaped set", contained(selfmap, RFC_UNESCAPED),
-                   f"verbatim set {norm_intervals(selfmap)} exceeds {RFC_UNESCAPED}: a quote, backslash or control character would be emitted raw")
-            must = [0x22, 0x5C] + list(range(0, 0x20))
-            raw = [cp for cp in must if any(lo <= cp <= hi for lo, hi in selfmap)]
-            chk.ob("R1.serialiser_unescaped", sfn, "quote, backslash and U+0000-001F are never written verbatim", not raw, f"written raw: {raw}")
-            chk.ob("R1.serialiser_escapes", sfn, "everything else goes to the \\uXXXX arm", has_rest, "no catch-all arm for the remaining code points")
-        sb = prog.bodies.get(sfn)
-        if sb:
-            lits = fmt.format_literals(sb)
-            chk.ob("R1.serialiser_escapes", sfn, "the catch-all arm writes \\u escapes (UTF-16 units above U+FFFF)", any(l.startswith("\\u") for l in lits) and bool(sb.calls_to(r"encode_utf16$")), f"format literals {lits}")
+    sb = prog.bodies.get(sfn)
+    chk.floor("string_to_string body", 1 if sb else 0, 1)
+    if sb:
+        hosts = [sb] + [c if not isinstance(c, str) else prog.bodies[c] for c in prog.all_closures_of(sfn)]
+        short, selfmask, restmask, n_vars = {}, 0, 0, 0
+        lits_u = []
+        ALLC = (1 << 0x110000) - 1
+        for hb in hosts:
+            vars_ = []
+            for blk, t in hb.calls_to(r"str::Chars<'\w+> as std::iter::Iterator>::next$|Chars.*Iterator>::next$"):
+                if t.get("dest") is not None:
+                    vars_.append(("field", describe(prog, hb, t["dest"]["l"]), 0))
+            if hb.kind in ("closure", "coroutine"):
+                for i in range(2, hb.argc + 1):
+                    if hb.local_ty(i) == "char":
+                        vars_.append(("param", i, hb.local_name(i)))
+            for var in vars_:
+                fl = byteset.ByteFlow(prog, hb, var, width=0x110000)
+                used = False
+                for blk, t in hb.calls():
+                    name = t.get("resolved") or t.get("callee") or ""
+                    if not core.re.search(r"string::String::(push|push_str)$|String as std::fmt::Write>::write_(str|fmt|char)$|fmt::Write::write_fmt$", name):
+                        continue
+                    arg = describe(prog, hb, t["args"][-1])
+                    m = fl.mask_at(blk)
+                    if (m == ALLC or m == 0) and not fl.is_alias_desc(arg):
+                        continue            # not inside the per-character decision (the opening / closing quote)
+                    used = True
+                    if name.endswith("String::push") and fl.is_alias_desc(arg):
+                        selfmask |= m
+                    elif name.endswith("push_str") and 0 < bin(m).count("1") <= 64 and all(isinstance(fl.eval(arg, v), str) for v in byteset.members(m)):
+                        for v in byteset.members(m):
+                            short[v] = fl.eval(arg, v)
+                    else:
+                        fs = [c[3] for c in core.desc_calls(arg) if "fmt::Arguments" in c[1] and len(c) > 3]
+                        if fs:
+                            parts = fmt.format_parts(hb, fs[0]) or []
+                            lits_u.append("".join(x[1] for x in parts if x[0] == "lit"))
+                            restmask |= m
+                        else:
+                            chk.ob("R1.serialiser_escapes", sfn, "every write of a character is verbatim, a short escape or a \\u escape", False,
+                                   f"unrecognised write {name.split('::')[-1]}({core.short(str(arg))[:80]})", where=hb.where(blk))
+                n_vars += 1 if used else 0
+        chk.floor("serialiser code-point table", n_vars, 1)
+        selfmap = byteset.intervals_of(selfmask)
+        for cp, s_ in sorted(short.items()):
+            ok = len(s_) == 2 and s_[0] == "\\" and RFC_ESC.get(s_[1]) == cp and esc.get(s_[1]) == cp
+            chk.ob("R1.serialiser_escapes", sfn, f"U+{cp:04X} -> {s_!r} is an RFC escape of that code point and the parser inverts it", ok,
+                   f"U+{cp:04X} is written as {s_!r}; the parser reads that back as {esc.get(s_[1]) if len(s_) == 2 else None}")
+        chk.ob("R1.serialiser_unescaped", sfn, "code points written verbatim are within the RFC unescaped set", contained(selfmap, RFC_UNESCAPED),
+               f"verbatim set {[(hex(a), hex(b)) for a, b in selfmap]} exceeds {RFC_UNESCAPED}: a quote, backslash or control character would be emitted raw")
+        must = [0x22, 0x5C] + list(range(0, 0x20))
+        raw = [cp for cp in must if selfmask >> cp & 1]
+        chk.ob("R1.serialiser_unescaped", sfn, "quote, backslash and U+0000-001F are never written verbatim", not raw, f"written raw: {raw}")
+        covered = selfmask | restmask
+        for cp in short:
+            covered |= 1 << cp
+        chk.ob("R1.serialiser_escapes", sfn, "everything else goes to the \\uXXXX arm", covered == ALLC and restmask != 0,
+               f"code points with no output: {[(hex(a), hex(b)) for a, b in byteset.intervals_of(ALLC & ~covered)][:4]}")
+        allb = hosts
+        chk.ob("R1.serialiser_escapes", sfn, "the catch-all arm writes \\u escapes (UTF-16 units above U+FFFF)",
+               any(l.startswith("\\u") for l in lits_u) and any(hb.calls_to(r"encode_utf16$") for hb in allb), f"format literals {lits_u}")
     # ---- whitespace and literals
     hw = prog.hir.get("humphrey_json::parser::is_whitespace")
     ws = set()
